@@ -283,7 +283,12 @@ func findBackendTLSPolicyForService(
 	if beTLSPolicy != nil {
 		beTLSPolicy.IsReferenced = true
 		if !beTLSPolicy.Valid {
-			err = fmt.Errorf("the backend TLS policy is invalid: %s", beTLSPolicy.Conditions[0].Message)
+			// a policy whose ancestor status list is full is invalid (ignored) without carrying a condition
+			msg := "its ancestor status list is full"
+			if len(beTLSPolicy.Conditions) > 0 {
+				msg = beTLSPolicy.Conditions[0].Message
+			}
+			err = fmt.Errorf("the backend TLS policy is invalid: %s", msg)
 		} else {
 			beTLSPolicy.Conditions = append(beTLSPolicy.Conditions, staticConds.NewPolicyAccepted())
 		}
